@@ -122,6 +122,13 @@ pub fn gen_c16_case(g: &mut G) -> Value {
         doc["definitions"]["ZzUnionAfter"] = json!({"oneOf": [{"$ref": "#/definitions/AaPreset"}, {"type": "integer"}]});
         doc["definitions"]["AaPreset"] = json!({"type": "string", "enum": ["hot", "cold"]});
     }
+    // definitions that typify represents by a native type of the same name
+    let natives = g.chance(1, 3);
+    if natives {
+        doc["definitions"]["Uuid"] = json!({"type": "string", "format": "uuid"});
+        doc["definitions"]["Ipv4Addr"] = json!({"type": "string", "format": "ipv4"});
+        doc["definitions"]["NativeUser"] = json!({"type": "object", "properties": {"id": {"$ref": "#/definitions/Uuid"}, "at": {"$ref": "#/definitions/Ipv4Addr"}}, "required": ["id"]});
+    }
     let mut comps = components(&doc);
     g.shuffle(&mut comps);
     // group the components into 1..k calls
@@ -141,6 +148,17 @@ pub fn gen_c16_case(g: &mut G) -> Value {
     let nt = g.below(5);
     let mut type_steps: Vec<Value> = vec![];
     for i in 0..nt {
+        if natives && g.chance(1, 2) {
+            // the same native schemas in-line: bare, in an array, nullable
+            let n = if g.chance(1, 2) { json!({"type": "string", "format": "uuid"}) } else { json!({"type": "string", "format": "ipv4"}) };
+            let schema = match g.below(3) {
+                0 => n,
+                1 => json!({"type": "array", "items": n}),
+                _ => json!({"oneOf": [n, {"type": "null"}]}),
+            };
+            type_steps.push(json!({"op": "type", "schema": schema, "hint": Value::Null, "inline_native": true}));
+            continue;
+        }
         let schema = match g.below(6) {
             0 => json!({"$ref": format!("#/definitions/{}", g.pick(&names))}),
             1 => json!({"type": "array", "items": {"$ref": format!("#/definitions/{}", g.pick(&names))}}),
@@ -168,12 +186,23 @@ pub fn gen_c16_case(g: &mut G) -> Value {
             type_steps.push(json!({"op": "type", "schema": schema, "hint": n}));
         }
     }
-    history.extend(type_steps.clone());
+    // in-line native steps may be made before the definition batches
+    let early = natives && g.chance(1, 2);
+    if early {
+        let (pre, post): (Vec<Value>, Vec<Value>) = type_steps.iter().cloned().partition(|t| t.get("inline_native").is_some());
+        let mut h = pre;
+        h.extend(history.clone());
+        h.extend(post);
+        history = h;
+    } else {
+        history.extend(type_steps.clone());
+    }
     // repeats of earlier add_type steps
     if !type_steps.is_empty() && g.chance(2, 3) {
-        let k = g.below(type_steps.len());
-        let mut r = type_steps[k].clone();
-        r["repeat_of"] = json!(groups.len() + k);
+        let idx: Vec<usize> = history.iter().enumerate().filter(|(_, h)| h["op"] == "type").map(|(i, _)| i).collect();
+        let k = *g.pick(&idx);
+        let mut r = history[k].clone();
+        r["repeat_of"] = json!(k);
         history.push(r);
     }
     // sometimes a definitions batch is added a second time
@@ -230,6 +259,7 @@ fn step_of(v: &Value) -> Option<Step> {
     let mut o = v.as_object()?.clone();
     o.remove("repeat_of");
     o.remove("readd");
+    o.remove("inline_native");
     serde_json::from_value(Value::Object(o)).ok()
 }
 
@@ -308,6 +338,7 @@ impl Property for C16 {
         let mut space = TypeSpace::new(&ts);
         let mut recorded: BTreeMap<String, (TypeId, Value)> = BTreeMap::new();
         let mut step_ident: Vec<Option<String>> = vec![];
+        let mut step_ids: Vec<Option<TypeId>> = vec![];
         let n_refs = steps.iter().filter(|s| matches!(s, Step::Refs { .. })).count();
         let has_repeat = hist.iter().any(|h| h.get("repeat_of").is_some() || h.get("readd").is_some());
         unit.nontrivial = steps.len() >= 3 && (has_repeat || n_refs >= 2);
@@ -326,6 +357,7 @@ impl Property for C16 {
                 }
             };
             step_ident.push(id.as_ref().and_then(|id| space.get_type(id).ok().map(|t| ingest::ts(t.ident()))));
+            step_ids.push(id.clone());
             // record the returned id and the ids of the definitions just added
             let mut fresh: Vec<TypeId> = id.iter().cloned().collect();
             if let Step::Refs { defs } = step {
@@ -366,6 +398,14 @@ impl Property for C16 {
                 let again = step_ident[i].clone();
                 if first != again {
                     unit.violations.push(Violation::new("readd-different-identifier", format!("step {i} repeats step {k}: identifiers {:?} vs {:?}", first, again)));
+                }
+                // ... and for unnamed (structurally identified) types the very same TypeId
+                if hist[i]["hint"].is_null() {
+                    if let (Some(Some(a)), Some(b)) = (step_ids.get(k as usize), id.as_ref()) {
+                        if ingest::tid(a) != ingest::tid(b) {
+                            unit.violations.push(Violation::new("readd-different-type-id", format!("step {i} repeats step {k} (an unnamed schema): TypeId {} then {}", ingest::tid(a), ingest::tid(b))));
+                        }
+                    }
                 }
                 if let (Some(b), Ok(a)) = (before_items, item_map(&space)) {
                     let bn: BTreeSet<&String> = b.keys().collect();
